@@ -432,6 +432,69 @@ def stage_w_objects(rep, rng, n, fixed, ctx):
     return dis
 
 
+def stage_oracle_objects(rep, rng, n, ctx):
+    """Direct check on the real executable()/library builtins (independent of the model): sources of one target that
+    differ in a directory component or in the file stem get different object files, all inside the build directory -
+    or configuration fails with an error. Source sets are near-collision families: equal stems in different
+    directories, a stem and the same stem extended by a dotted part (codec.c / codec.tables.c / codec.tables.v2.c),
+    stems differing in one character, equal stems with different extensions (must be rejected or distinct)."""
+    from bfg9000 import file_types
+    from bfg9000.path import Path, Root
+    bad = 0
+    stems0 = ['codec', 'a', 'b1', 'x.pb', 'foo.test', 'main']
+    for it in range(n):
+        inter = rng.random() < 0.6
+        kind, prefix = rng.choice(KINDS)
+        build, c = ctx.context([])
+        c['project']('p', intermediate_dirs=inter)
+        st = rng.choice(stems0)
+        fam = [('', st + '.c'), ('', st + '.tables.c'), ('', st + '.tables.v2.c'), ('d1', st + '.c'), ('d2', st + '.c'),
+               ('d1/d2', st + '.c'), ('', st + 'x.c'), ('d1', st + '.tables.c')]
+        k = rng.randint(2, 5)
+        chosen = rng.sample(fam, k)
+        if rng.random() < 0.3:
+            chosen.append(('', st + '.cpp'))          # same stem, other extension: a collision the property wants rejected
+        srcs = [Path((d + '/' if d else '') + f, Root.srcdir) for d, f in chosen]
+        rep.case('objfam:%s:%d:%r' % (kind, inter, chosen), True)
+        try:
+            out = c[kind]('prog', files=[file_types.SourceFile(p, 'c') for p in srcs])
+            objs = [o.path for o in out.creator.files]
+        except ValueError as e:
+            keys = [(d, f.rsplit('.', 1)[0]) for d, f in chosen]
+            if len(set(keys)) == len(keys):
+                bad += 1
+                rep.fail('%s(files=%r) is rejected although all sources differ in directory or stem: %s' % (kind, chosen, e),
+                         {'kind': 'objects-family', 'target_kind': kind, 'intermediate_dirs': inter, 'sources': chosen, 'error': str(e)})
+            continue
+        # the emitters' duplicate check runs at rule emission; emulate it with the real Makefile
+        from bfg9000.backends.make.syntax import Makefile
+        mk = Makefile('build.bfg')
+        dup = None
+        try:
+            for o in objs:
+                mk.rule(o, recipe=[['true']])
+        except ValueError as e:
+            dup = str(e)
+        keys = [(d, f.rsplit('.', 1)[0]) for d, f in chosen]
+        distinct_inputs = len(set(keys)) == len(keys)
+        strs = [(o.root.name, o.suffix) for o in objs]
+        outside = [s_ for s_ in strs if s_[0] != 'builddir' or s_[1].startswith('..')]
+        if outside:
+            bad += 1
+            rep.fail('object files outside the build directory: %r for sources %r' % (outside, chosen),
+                     {'kind': 'objects-family', 'sources': chosen, 'objects': strs})
+        elif distinct_inputs and (len(set(strs)) != len(strs) or dup):
+            bad += 1
+            rep.fail('%s: sources %r differ in directory or stem but map to objects %r (%s)' % (kind, chosen, strs, dup),
+                     {'kind': 'objects-family', 'target_kind': kind, 'intermediate_dirs': inter, 'sources': chosen, 'objects': strs})
+        elif not distinct_inputs and len(set(strs)) != len(strs) and not dup:
+            bad += 1
+            rep.fail('two sources with one stem map to one object and the emitter does not reject it: %r' % (strs,),
+                     {'kind': 'objects-family', 'sources': chosen, 'objects': strs})
+    rep.stage('oracle:object families', cases=n, failures=bad)
+    return bad
+
+
 # ----------------------------------------------------------------------------- W: duplicate detection of the emitters
 def stage_w_emit(rep, rng, n):
     from bfg9000.backends.make import syntax as msyn
@@ -817,6 +880,7 @@ def run(rep):
         dis += [('W:names', ) + x for x in stage_w_names(rep, rng, n // 2, ctx)]
         dis += [('W:objects', ) + x for x in stage_w_objects(rep, rng, n // 3, fixed, ctx)]
         found = stage_oracle_within(rep, rng, 4 if (thorough or dis) else 3, (n // 3) * (10 if dis else 1))
+        found += stage_oracle_objects(rep, rng, (600 if thorough else 120) * (5 if dis else 1), ctx)
     finally:
         shutil.rmtree(scratch, ignore_errors=True)
     found += stage_oracle_duplicates(rep, rng, 2000 if thorough else 300)
